@@ -1,10 +1,10 @@
 #!/bin/bash
 # Runs the checker against the original pinned tree (d5478e5) in a scratch worktree:
-# every defect D1..D13 of DESIGN §6 must be reported there.
+# every defect D1..D14 of DESIGN §6 must be reported there.
 wt=$(mktemp -d /tmp/orig.XXXXXX); rmdir $wt
 git -C /repo worktree add -q --detach $wt d5478e5 || exit 2
 vd=$(mktemp -d /tmp/origv.XXXXXX)
-for p in ${*:-$(/verif/bin/argverif -property all -dump engines 2>/dev/null | awk '{print $1}')}; do
-  /verif/bin/argverif -repo $wt -verif $vd -property $p | grep -E "^VIOLATION|rule=|found:" | paste - - - | sed -e "s#replay=[^ ]*##" | cut -c1-330
+for p in ${*:-$(${ARGVERIF:-/verif/bin/argverif} -property all -dump engines 2>/dev/null | awk '{print $1}')}; do
+  ${ARGVERIF:-/verif/bin/argverif} -repo $wt -verif $vd -property $p | grep -E "^VIOLATION|rule=|found:" | paste - - - | sed -e "s#replay=[^ ]*##" | cut -c1-330
 done
 git -C /repo worktree remove --force $wt; rm -rf $vd $wt
